@@ -170,6 +170,24 @@ def main():
     ion2 = [l[:22] + ' 163' + l[26:30] + '%8.3f%8.3f%8.3f' % tuple(round(c + d, 3) for c, d in zip(P(l), v2)) + l[54:] for l in ion]
     with open(os.path.join(OUT, 'complex_MTX2.pdb'), 'w') as fh:
         fh.write('\n'.join(src + lig2 + ion2) + '\n')
+    # two chlorides of one chain (CL A 201, CL A 202: same label) both in contact with LYS 43 NZ of pair_LYS_ASP: positions 3.2 A from NZ
+    # in the two grid directions that keep them farthest from every other atom
+    src = [l for l in open(os.path.join(OUT, 'pair_LYS_ASP.pdb')).read().split('\n') if l]
+    atoms = [l for l in src if l.startswith('ATOM')]
+    nz = [P(l) for l in atoms if l[17:20] == 'LYS' and l[12:16].strip() == 'NZ'][0]
+    dirs = []
+    for v in itertools.product((-1, 0, 1), repeat=3):
+        n = math.sqrt(sum(c * c for c in v))
+        if n:
+            pos = tuple(round(c + 3.2 * d / n, 3) for c, d in zip(nz, v))
+            dirs.append((min(math.dist(pos, P(l)) for l in atoms if P(l) != nz), pos))
+    dirs.sort(reverse=True)
+    first = dirs[0][1]
+    second = [d for d in dirs[1:] if math.dist(d[1], first) >= 3.5][0][1]
+    with open(os.path.join(OUT, 'pair_LYS_ASP_2CL.pdb'), 'w') as fh:
+        fh.write('\n'.join(src) + '\n')
+        for i, pos in enumerate((first, second)):
+            fh.write('HETATM %4d CL    CL A %3d    %8.3f%8.3f%8.3f  1.00  0.00          CL\n' % (900 + i, 201 + i, pos[0], pos[1], pos[2]))
     print(sorted(os.listdir(OUT)))
 
 
